@@ -785,8 +785,12 @@ impl CryptoTransform for CryptographicBuiltin {
       return Err(security_error("Encoded payload smaller than minimum size"));
     }
     let (header_bytes, content_and_footer_bytes) = encoded_buffer.split_at(head_len);
-    let (content_bytes, footer_bytes) =
-      content_and_footer_bytes.split_at(content_and_footer_bytes.len() - foot_len);
+
+    // We cannot find the CryptoFooter simply by counting back from the end of
+    // the buffer: A DATA submessage pads its payload to a 4-byte boundary, and
+    // the receiving side hands that padding on to us as a part of the payload.
+    // So up to 3 bytes of padding may follow the CryptoFooter.
+    const MAX_PADDING: usize = 3;
 
     // Deserialize crypto header and footer
 
@@ -802,8 +806,6 @@ impl CryptoTransform for CryptographicBuiltin {
         },
       builtin_crypto_header_extra: BuiltinCryptoHeaderExtra(initialization_vector),
     } = crypto_header.try_into()?;
-
-    let BuiltinCryptoFooter { common_mac, .. } = BuiltinCryptoFooter::try_from(footer_bytes)?;
 
     // Get the payload decode key material
     let decode_key_material = self.session_decode_crypto_materials(
@@ -835,13 +837,44 @@ impl CryptoTransform for CryptographicBuiltin {
       }
       BuiltinCryptoTransformationKind::CRYPTO_TRANSFORMATION_KIND_AES128_GMAC
       | BuiltinCryptoTransformationKind::CRYPTO_TRANSFORMATION_KIND_AES256_GMAC => {
-        validate_mac(decode_key, initialization_vector, content_bytes, common_mac)
-          // if validate_mac succeeds, then map result to content bytes
-          .map(|()| Vec::from(content_bytes))
+        // SerializedPayload does not have a length marker, so the footer
+        // starts at one of four possible positions. Only the genuine one can
+        // pass the MAC validation.
+        (0..=MAX_PADDING)
+          .filter_map(|padding| {
+            content_and_footer_bytes
+              .len()
+              .checked_sub(foot_len + padding)
+          })
+          .find_map(|content_len| {
+            let (content_bytes, footer_and_padding) =
+              content_and_footer_bytes.split_at(content_len);
+            let BuiltinCryptoFooter { common_mac, .. } =
+              BuiltinCryptoFooter::try_from(&footer_and_padding[..foot_len]).ok()?;
+            validate_mac(decode_key, initialization_vector, content_bytes, common_mac)
+              // if validate_mac succeeds, then map result to content bytes
+              .map(|()| Vec::from(content_bytes))
+              .ok()
+          })
+          .ok_or_else(|| {
+            create_security_error_and_log!("Signed SerializedPayload: MAC validation failed.")
+          })
       }
       BuiltinCryptoTransformationKind::CRYPTO_TRANSFORMATION_KIND_AES128_GCM
       | BuiltinCryptoTransformationKind::CRYPTO_TRANSFORMATION_KIND_AES256_GCM => {
-        let ciphertext = CryptoContent::read_from_buffer(content_bytes)?.data;
+        // CryptoContent carries its own length, so the CryptoFooter is found
+        // right after it. (The reader stops at the end of CryptoContent.)
+        let ciphertext = CryptoContent::read_from_buffer(content_and_footer_bytes)?.data;
+        let footer_start = 4 + ciphertext.len(); // 4 = CryptoContent length field
+        let footer_bytes = content_and_footer_bytes
+          .get(footer_start..footer_start + foot_len)
+          .filter(|_| content_and_footer_bytes.len() <= footer_start + foot_len + MAX_PADDING)
+          .ok_or_else(|| {
+            create_security_error_and_log!(
+              "Encoded payload: CryptoFooter not found right after CryptoContent."
+            )
+          })?;
+        let BuiltinCryptoFooter { common_mac, .. } = BuiltinCryptoFooter::try_from(footer_bytes)?;
         decrypt(decode_key, initialization_vector, &ciphertext, common_mac)
       }
     }
